@@ -307,6 +307,7 @@ func (s *DiscoveryServer) Push(req *model.PushRequest) {
 	initContextTime := time.Since(t0)
 	log.Debugf("InitContext %v for push took %s", versionLocal, initContextTime)
 	pushContextInitTime.Record(initContextTime.Seconds())
+	verifGate("push:after-publish")
 
 	req.Push = push
 	s.AdsPushAll(req)
